@@ -207,6 +207,7 @@ type Commit struct {
 	commitTerm map[uint64]uint64       // index -> term of the node on which it was first seen committed
 	leading    map[int]uint64          // node -> term it is currently seen leading
 	held       map[int]map[uint64]bool // node -> committed indices it held while leading
+	mirror     map[int]map[uint64]string
 }
 
 func (m *Commit) Attach(c *sim.Cluster) {
@@ -215,6 +216,29 @@ func (m *Commit) Attach(c *sim.Cluster) {
 	m.leading = map[int]uint64{}
 	m.held = map[int]map[uint64]bool{}
 	m.commitTerm = map[uint64]uint64{}
+	// mirror of what every log holds or held before compacting it itself: an
+	// entry that is committed and compacted into a local snapshot within one
+	// step is still learnt as committed
+	m.mirror = map[int]map[uint64]string{}
+	c.LogObservers = append(c.LogObservers, func(node int, op string, index uint64, entries []*raft.LogEntry) {
+		if m.mirror[node] == nil {
+			m.mirror[node] = map[uint64]string{}
+		}
+		switch op {
+		case "append":
+			for _, e := range entries {
+				m.mirror[node][e.Index] = sim.CanonEntry(e)
+			}
+		case "truncate":
+			for idx := range m.mirror[node] {
+				if idx >= index {
+					delete(m.mirror[node], idx)
+				}
+			}
+		case "discard":
+			m.mirror[node] = map[uint64]string{}
+		}
+	})
 }
 
 func logEntry(n *sim.Node, idx uint64) (*raft.LogEntry, bool) {
@@ -236,14 +260,26 @@ func (m *Commit) Step(c *sim.Cluster) *common.Violation {
 			continue
 		}
 		for idx := v.CommitIndex; idx > 0; idx-- {
+			var ce string
 			if idx <= v.LastIncludedIndex {
-				break // covered by the node's snapshot: whatever the log file still holds there is not read by the node
+				// covered by the node's snapshot: whatever the log file still holds
+				// there is not read by the node; what the node compacted itself
+				// after committing it is known from the mirror
+				if _, physical := logEntry(n, idx); physical {
+					break // an installation is in progress: the old log is still there
+				}
+				mc, ok := m.mirror[i][idx]
+				if !ok {
+					break
+				}
+				ce = mc
+			} else {
+				e, ok := logEntry(n, idx)
+				if !ok {
+					break
+				}
+				ce = sim.CanonEntry(e)
 			}
-			e, ok := logEntry(n, idx)
-			if !ok {
-				break
-			}
-			ce := sim.CanonEntry(e)
 			if prev, ok := m.committed[idx]; ok {
 				if prev != ce {
 					return viol("C07", "commit-divergence", "index %d committed as %s on n%d but earlier as %s", idx, ce, i, prev)
